@@ -76,7 +76,20 @@ func checkC05(r *Result) {
 	// (a) WithdrawTip: same handler
 	if wt := need("(x/reporter/keeper.msgServer).WithdrawTip"); wt != nil {
 		ps := AnalyzePaths(wt, []Atom{{Name: "bonded", Cond: func(rel *Term) (bool, bool) {
-			return rel.Op == "call:(github.com/cosmos/cosmos-sdk/x/staking/types.Validator).IsBonded", true
+			if rel.Op == "call:(github.com/cosmos/cosmos-sdk/x/staking/types.Validator).IsBonded" {
+				return true, true
+			}
+			// IsBonded() spelled out: Status == Bonded
+			if rel.Op == "==" && len(rel.Args) == 2 {
+				a, c := rel.Args[0], rel.Args[1]
+				if strings.HasPrefix(a.Op, "const:") {
+					a, c = c, a
+				}
+				if strings.HasSuffix(a.Op, "staking/types.Validator.Status") && c.Op == bondedConst {
+					return true, true
+				}
+			}
+			return false, true
 		}}, {Name: "delegated", Event: P.CallEvent(isDelegate, T)},
 			{Name: "moved", Event: P.CallEvent(func(c *CallSite) bool { return isBankCall(c, "SendCoinsFromModuleToModule") }, T)}})
 		var delAmt, sendAmt, sendTo, sendFrom string
